@@ -1414,6 +1414,26 @@ def _mutate(kind, b, rng):
     return _mutate(kind, b, random.Random(int(rng.random() * 1e9)))
 
 
+def _lookups_own(rec, kind, pool, V):
+    """every live instance answers label lookups from its OWN items (an index kept outside the instance - keyed by id(),
+    or in a class attribute - would answer from another instance's)"""
+    for b_ in pool:
+        its_ = _items(kind, b_)
+        labs_ = [getattr(t_, "label", None) for t_ in its_]
+        for lb in dict.fromkeys(l_ for l_ in labs_ if isinstance(l_, str)):
+            rec.count("oracle:C20.label-lookup-answers-from-own-items")
+            try:
+                hit = b_[lb]
+            except Exception:
+                continue            # what a lookup raises is C18's business
+            if hit is not its_[labs_.index(lb)]:
+                V("label-lookup-answers-from-another-instance",
+                  f"[{lb[:20]!r}] of an instance holding labels {[str(l_)[:12] for l_ in labs_]} does not give its first item "
+                  f"with that label")
+                return False
+    return True
+
+
 def shard_c20(desc, rec):
     global ALLGAP_P
     ALLGAP_P = 0.3     # wholly-missing tracks / platforms are where decoders are tempted to share a NaN template
@@ -1437,6 +1457,9 @@ def shard_c20(desc, rec):
         for _ in range(rng.randint(10, 40)):
             r = rng.random()
             before = [(b, _snapshot(kind, b)) for b in pool]
+            if kind in ("data3D", "force3D", "emg", "events") and not _lookups_own(rec, kind, pool, V):
+                ok = False
+                break
             touched = None          # the one instance this step is allowed to change
             what = "?"
             if r < 0.25 or len(pool) < 2:
